@@ -147,6 +147,14 @@ def own_c05(tier, seed, params):
             for fa, fb in ZIP_FORMS:
                 if "o" in (fa, fb) or "b" in (fa, fb):
                     out.append("op=zip form=%s form2=%s n=%d fault=call:%d" % (fa, fb, n, k))
+    # `fold` / `rfold` / `clone` of the by-value iterator from every position, the closure panicking at every call
+    # (for the library, an element whose destructor panics while the closure owns it)
+    for n in range(1, 6):
+        for f in range(0, n + 1):
+            for b in range(f, n + 1):
+                for k in range(b - f):
+                    out.append("op=iter_fold n=%d front=%d back=%d fault=call:%d" % (n, f, b, k))
+                    out.append("op=iter_rfold n=%d front=%d back=%d fault=call:%d" % (n, f, b, k))
     # teardown of an intermediate value on a path that is not already unwinding: `try_from_iter` (stack and boxed)
     # given too few or too many items drops what it had collected (and the surplus item) and returns `Err` — one of
     # those destructors panics
@@ -455,6 +463,12 @@ def heap_c16(tier, seed, params):
                 for k in ks:
                     out.append("op=%s n=%d kind=%s fault=call:%d" % (op, n, kind, k))
             if n <= 33:
+                # boxed collect from a source that panics on its k-th `next()` call: during the fill and on the
+                # surplus probe after the N-th item
+                for l in sorted(set([n, n + 1])):
+                    for k in (range(n + 2) if n <= 8 else [0, n - 1, n, n + 1]):
+                        if k <= l:
+                            out.append("op=boxed_collect n=%d l=%d kind=%s fault=poll:%d" % (n, l, kind, k))
                 for op in ("box_map", "box_zip"):
                     out.append("op=%s n=%d kind=%s fault=none" % (op, n, kind))
                     for k in (range(n) if n <= 8 else [0, n - 1]):
@@ -489,11 +503,17 @@ def heap_c01(tier, seed, params):
         for n in (0, 1, 2, 3, 5, 8):
             for op in ("boxed_generate", "default_boxed"):
                 out.append("op=%s n=%d kind=%s fault=none" % (op, n, kind))
+            # a `Box<GenericArray<T, N>>` sits on a block of exactly N * size_of::<T>() bytes: a Vec with spare
+            # capacity must be shrunk before it is re-typed (the recording allocator compares release and request)
+            for l in sorted(set([n, n + 1])):
+                for cap in (l, l + 3):
+                    out.append("op=try_from_vec n=%d l=%d cap=%d kind=%s" % (n, l, cap, kind))
+            out.append("op=boxed_collect n=%d l=%d kind=%s" % (n, n, kind))
     return out
 
 
 def heap_c08(tier, seed, params):
-    return ["op=%s n=%d kind=%s fault=none" % (op, n, kind) for kind in HEAP_KINDS for n in HEAP_NS for op in ("boxed_generate", "default_boxed")]
+    return ["op=%s n=%d kind=%s fault=none" % (op, n, kind) for kind in HEAP_KINDS + ["dc"] for n in HEAP_NS for op in ("boxed_generate", "default_boxed")]
 
 
 SERDE_NS = [0, 1, 2, 3, 4, 5, 6, 7, 8, 16, 17, 33, 64, 97]
@@ -790,7 +810,7 @@ def heap_c04(tier, seed, params):
     """boxed generate / default_boxed with a panic at every generator call, for a drop-tracked and a zero-sized
     drop-counted element type (the boxed forms have their own fill loop in src/impl_alloc.rs)"""
     out = []
-    for kind in ("tr", "z"):
+    for kind in ("tr", "z", "dc"):
         for n in (0, 1, 2, 3, 4, 5, 8):
             for op in ("boxed_generate", "default_boxed"):
                 out.append("op=%s n=%d kind=%s fault=none" % (op, n, kind))
